@@ -2,4 +2,5 @@ let () =
   Util.self_check ();
   match Sys.argv with
   | [| _; "c03" |] -> C03.run ()
+  | [| _; "script"; f |] -> Script.run f
   | _ -> prerr_endline "usage: gvmodel <subcommand>"; exit 2
